@@ -20,17 +20,13 @@ theorem safePD_readString {B : Nat} {inp : Bytes} (x : Bytes) :
 
 namespace Patch
 
-/-- the budget the `apply` lemmas are proved with: input-proportional, plus the declared sizes the
-recorded finding lets through (`decompressed_length` < 2^32 per block, accumulated below the
-declared `file_size` < 2^64) -/
-def bigBudget (n : Nat) : Nat := budget n + 2 ^ 67
-
 variable {inp : Bytes}
 
-local notation "BB" => bigBudget inp.length
+/-- the budget of the property: `64·|patch| + 2^24` -/
+local notation "BB" => budget inp.length
 
-theorem bb_const {c : Nat} (h : c ≤ 2 ^ 24) : c ≤ BB := by unfold bigBudget budget; omega
-theorem bb_inp : 2 * inp.length + 32 ≤ BB := by unfold bigBudget budget; omega
+theorem bb_const {c : Nat} (h : c ≤ 2 ^ 24) : c ≤ BB := by unfold budget; omega
+theorem bb_inp : 2 * inp.length + 32 ≤ BB := by unfold budget; omega
 
 theorem sp_fileHeader : SafePD BB inp 0 fileHeader (fun _ => True) := by
   unfold fileHeader
@@ -203,58 +199,72 @@ theorem i32_nonneg_lt {v : UInt32} (h : 0 ≤ i32OfU32 v) : v.toNat < 2 ^ 31 := 
   · assumption
   · have := v.toNat_lt; omega
 
-/-- a block consumes at least four bytes; its length is below 2^32 -/
+theorem i32_lt_32000 {v : UInt32} (h0 : 0 ≤ i32OfU32 v) (h : i32OfU32 v < 32000) : v.toNat < 32000 := by
+  unfold i32OfU32 at h h0
+  split at h
+  · omega
+  · have := v.toNat_lt; omega
+
+/-- a block (with the cap of fix C17-13) consumes at least four bytes and requests at most
+`max (32000 + 143) 2^20` bytes of its own, whatever the header says -/
 theorem sp_readDataBlock (inflate : Bytes → Nat → Bool) :
-    SafePD BB inp 4 (readDataBlock inflate) (fun n => n < 2 ^ 32) := by
+    SafePD BB inp 4 (readDataBlock true inflate) (fun _ => True) := by
   unfold readDataBlock
   refine SafePD.bindK SafePD.u32le (fun size _ => ?_)
   refine SafePD.step SafePD.skip (fun _ _ => ?_)
   refine SafePD.step SafePD.u32le (fun x _ => ?_)
   refine SafePD.step SafePD.u32le (fun y _ => ?_)
   refine SafePD.step (SafePD.restorePosition SafePD.take) (fun _ _ => ?_)
-  have hy := y.toNat_lt
-  have hx := x.toNat_lt
   split
-  · refine SafePD.step SafePD.guard (fun _ _ => ?_)
+  · next hx =>
+    refine SafePD.step SafePD.guard (fun _ hx0 => ?_)
     refine SafePD.step SafePD.guard (fun _ _ => ?_)
+    refine SafePD.step SafePD.guard (fun _ hcap => ?_)
     refine SafePD.step SafePD.guard (fun _ _ => ?_)
-    have hand : (x.toNat + 143) &&& 0xFFFFFF80 ≤ 0xFFFFFF80 := Nat.and_le_right
-    refine SafePD.step (SafePD.alloc (by unfold bigBudget budget; omega)) (fun _ _ => ?_)
+    have hx' : x.toNat < 32000 := i32_lt_32000 (of_decide_eq_true hx0) hx
+    have hcap' : y.toNat ≤ 2 ^ 20 := by
+      simp only [Bool.not_true, Bool.false_or, maxDecompressedBlockSize] at hcap; exact of_decide_eq_true hcap
+    have hand : (x.toNat + 143) &&& 0xFFFFFF80 ≤ x.toNat + 143 := Nat.and_le_left
+    refine SafePD.step (SafePD.alloc (bb_const (by omega))) (fun _ _ => ?_)
     refine SafePD.step SafePD.take (fun _ _ => ?_)
-    refine SafePD.step (SafePD.alloc (by unfold bigBudget budget; omega)) (fun _ _ => ?_)
+    refine SafePD.step (SafePD.alloc (bb_const (by omega))) (fun _ _ => ?_)
     refine SafePD.step SafePD.guard (fun _ _ => ?_)
-    exact SafePD.pure (by omega)
+    exact SafePD.pure trivial
   · refine SafePD.step SafePD.guard (fun _ _ => ?_)
     refine SafePD.step (SafePD.vecU8Bounded bb_inp) (fun data hd => ?_)
     refine SafePD.step SafePD.guard (fun _ _ => ?_)
     refine SafePD.step SafePD.skip (fun _ _ => ?_)
-    exact SafePD.pure (by omega)
+    exact SafePD.pure trivial
 
-/-- the block loop never runs out of fuel: every block consumes input -/
-theorem safe_readBlocks (inflate : Bytes → Nat → Bool) (fileSize : Nat) (hfs : fileSize < 2 ^ 64) :
-    ∀ (fuel have_ : Nat) (c : Cur), c.Within inp → c.rest.length < fuel →
-      Safe BB (readBlocks inflate fileSize fuel have_ inp c)
+/-- the block loop never runs out of fuel: every block consumes input; and it keeps nothing
+between blocks, so every request is one block's -/
+theorem safe_streamBlocks (inflate : Bytes → Nat → Bool) (limit : Nat) :
+    ∀ (fuel : Nat) (out : Option Nat) (remaining : Nat) (c : Cur), c.Within inp → c.rest.length < fuel →
+      Safe BB (streamBlocks inflate limit fuel out remaining inp c)
         (fun r => True ∧ r.2.rest.length + 0 ≤ c.rest.length) := by
   intro fuel
   induction fuel with
-  | zero => intro _ c _ h; omega
+  | zero => intro _ _ c _ h; omega
   | succ fuel ih =>
-    intro have_ c hc hf
-    unfold readBlocks
+    intro out remaining c hc hf
+    unfold streamBlocks
     split
-    · next hlt =>
-      refine Safe.bind' (sp_readDataBlock inflate c hc) (fun r hr => ?_)
+    · refine Safe.bind' (sp_readDataBlock inflate c hc) (fun r hr => ?_)
       have hw : r.2.Within inp := by simp only [Cur.Within] at *; omega
-      refine Safe.bind' (SafePD.alloc (B := BB) (inp := inp) (n := 2 * (have_ + r.1))
-        (by unfold bigBudget budget; omega) r.2 hw) (fun r2 hr2 => ?_)
+      have hwr : SafePD BB inp 0 (writeBlock limit out r.1) (fun _ => True) := by
+        unfold writeBlock
+        split
+        · exact SafePD.triv SafePD.guard
+        · exact SafePD.pure trivial
+      refine Safe.bind' (hwr r.2 hw) (fun r2 hr2 => ?_)
       have h2 : r2.2.rest.length ≤ r.2.rest.length := by omega
-      refine Safe.mono (ih (have_ + r.1) r2.2 (by simp only [Cur.Within] at *; omega) (by omega))
+      refine Safe.mono (ih _ _ r2.2 (by simp only [Cur.Within] at *; omega) (by omega))
         (fun r3 hr3 => ⟨trivial, by omega⟩)
     · exact Safe.pure' ⟨trivial, Nat.le_refl _⟩
 
-theorem sp_readBlocks (inflate : Bytes → Nat → Bool) (fileSize : Nat) (hfs : fileSize < 2 ^ 64) :
-    SafePD BB inp 0 (readBlocks inflate fileSize (inp.length + 1) 0) (fun _ => True) :=
-  fun c hc => safe_readBlocks inflate fileSize hfs _ _ c hc (by simp only [Cur.Within] at hc; omega)
+theorem sp_streamBlocks (inflate : Bytes → Nat → Bool) (limit : Nat) (out : Option Nat) (remaining : Nat) :
+    SafePD BB inp 0 (streamBlocks inflate limit (inp.length + 1) out remaining) (fun _ => True) :=
+  fun c hc => safe_streamBlocks inflate limit _ out remaining c hc (by simp only [Cur.Within] at hc; omega)
 
 theorem sp_input : SafePD BB inp 0 P.input (fun r => r = inp) :=
   fun _ _ => Safe.pure' ⟨rfl, Nat.le_refl _⟩
@@ -293,14 +303,14 @@ theorem sp_exec (inflate : Bytes → Nat → Bool) (limit : Nat) (fs : Fs.FS) (t
     · refine SafePD.step sp_io (fun _ _ => ?_)
       refine SafePD.step sp_input (fun patch hp => ?_)
       subst hp
-      have hfs : fileSize.toNat < 2 ^ 64 := fileSize.toNat_lt
-      refine SafePD.step (sp_readBlocks inflate fileSize.toNat hfs) (fun _ _ => ?_)
-      refine SafePD.step SafePD.skip (fun _ _ => ?_)
       split
       · refine SafePD.step SafePD.guard (fun _ _ => ?_)
-        refine SafePD.step SafePD.guard (fun _ _ => ?_)
+        refine SafePD.step (sp_streamBlocks inflate limit _ _) (fun _ _ => ?_)
+        refine SafePD.step SafePD.skip (fun _ _ => ?_)
         exact SafePD.pure trivial
-      · exact SafePD.pure trivial
+      · refine SafePD.step (sp_streamBlocks inflate limit _ _) (fun _ _ => ?_)
+        refine SafePD.step SafePD.skip (fun _ _ => ?_)
+        exact SafePD.pure trivial
     · exact SafePD.pure trivial
     · exact SafePD.pure trivial
     · refine SafePD.step sp_io (fun _ _ => ?_)
@@ -336,7 +346,7 @@ theorem sp_header : SafePD BB inp 0 header (fun _ => True) := by
   exact SafePD.skip
 
 theorem safe_apply (inflate : Bytes → Nat → Bool) (limit : Nat) (fs : Fs.FS) (b : Bytes) :
-    Safe (bigBudget b.length) (apply inflate limit fs b) (fun r => r.1 = Cmd.eof) := by
+    Safe (budget b.length) (apply inflate limit fs b) (fun r => r.1 = Cmd.eof) := by
   unfold apply P.run
   refine Safe.bind' (Q := fun r => r.1.1 = Cmd.eof) ?_ (fun r hr => Safe.pure' hr)
   have hc0 : (⟨b, 0⟩ : Cur).Within b := Nat.le_refl _
